@@ -64,13 +64,21 @@ func (Engine) Run(c *simkit.Choices, x *simkit.Ctx) *simkit.Violation {
 		n = 2 + c.N(3)
 		o.TopContainer = true
 	}
-	doc := common.GenDoc(c, sf, o, n)
+	var doc *model.Doc
+	if c.N(2500) == 0 {
+		var kind string
+		doc, kind = common.ExtremeDoc(c, sf)
+		n = len(doc.Vals)
+		x.Stats.Probe("extreme-shape-" + kind)
+	} else {
+		doc = common.GenDoc(c, sf, o, n)
+	}
 
 	// sanity of the trusted base: the reference reader of the source format
 	// must read the independent writer's output back as the generated values
 	if back, err := refRead(sf, doc.Bytes); err != nil || len(back) != len(doc.Vals) {
 		return &simkit.Violation{Kind: "harness", Site: "reference-reader/" + string(sf),
-			Detail: fmt.Sprintf("reference reader cannot read the independent writer's output: %v (%d of %d values) doc=%x", err, len(back), len(doc.Vals), doc.Bytes)}
+			Detail: fmt.Sprintf("reference reader cannot read the independent writer's output: %v (%d of %d values) doc=%x", err, len(back), len(doc.Vals), truncB(doc.Bytes))}
 	}
 
 	nonFinite := false
@@ -254,4 +262,11 @@ func trunc(s string, n int) string {
 		return s[:n] + "…"
 	}
 	return s
+}
+
+func truncB(b []byte) []byte {
+	if len(b) > 200 {
+		return b[:200]
+	}
+	return b
 }
